@@ -270,7 +270,7 @@ static std::string handle(const std::vector<std::string>& f)
         buf.park_mode = f.at(4) == "s" ? 2 : 1;
         std::thread a([&] { log(sevA, record_text(0, 0, sevA)); });
         // wait until A is parked inside the stream buffer
-        for (int i = 0; i < 5000 && !buf.parked; i++)
+        for (int i = 0; i < 50000 && !buf.parked; i++) // (generous: a busy machine may take its time to schedule A)
             std::this_thread::sleep_for(std::chrono::milliseconds(1));
         bool a_parked = buf.parked;
         std::thread b([&] { log(sevB, record_text(1, 0, sevB)); });
@@ -338,5 +338,5 @@ static std::string handle(const std::vector<std::string>& f)
 
 int main()
 {
-    return nv::main_loop(handle, 60, false);
+    return nv::main_loop(handle, 120, false);
 }
